@@ -1,5 +1,6 @@
 import Rbgp.Export.Codec01
 import Rbgp.Export.Spec01
+import Rbgp.Export.ConvMaster
 namespace Rbgp.C01
 open Rbgp Rbgp.Term Rbgp.Export Rbgp.Export.Codec01
 
@@ -8,7 +9,8 @@ def verdictStr : Spec01.Verdict → String
   | .fail c => s!"fail clause={c}"
 
 /-- mode `model`: case ↦ observation of the model;
-    mode `oracle`: case TAB observation ↦ verdict of the C01 reference checker. -/
+    mode `oracle`: case TAB observation ↦ verdict of the C01 reference checker;
+    mode `hyp`: case ↦ `t`/`f`, the computed hypothesis of the master theorem. -/
 def handler (mode : String) (line : String) : String :=
   match mode with
   | "model" =>
@@ -21,10 +23,23 @@ def handler (mode : String) (line : String) : String :=
           match (parse cs).bind caseOf? with
           | some c =>
               match (parse os).bind obsOf? with
-              | some ob => verdictStr (Spec01.check c ob)
+              | some ob =>
+                  match Spec01.check c ob with
+                  | .ok =>
+                      -- not part of the reference checker: report histories of the class the master theorem
+                      -- covers (no add-path, no LLGR period, no soft reset overtaking queued changes) on
+                      -- which its computed hypothesis `okRun` nevertheless fails
+                      if c.sess.max = 1 && Conv.noLlgr (c.pre ++ c.ops) && ob.overtaken = 0 && !Conv.okRun c
+                      then "fail clause=theorem-hypothesis-not-met-by-model-run class=in-order"
+                      else "ok"
+                  | v => verdictStr v
               | none => "fail clause=unparsable-observation"
           | none => if os == "(bad-case)" then "ok" else "fail clause=bad-case-accepted-by-harness"
       | _ => "(bad-line)"
+  | "hyp" =>
+      match (parse line).bind caseOf? with
+      | some c => if Conv.okRun c then "t" else "f"
+      | none => "(bad-case)"
   | _ => "(bad-mode)"
 
 end Rbgp.C01
